@@ -172,6 +172,7 @@ type parent struct {
 	unquiet    int64
 	samples    int
 	confirming bool
+	stops      int
 }
 
 func (p *parent) newFile() string {
@@ -315,12 +316,15 @@ func (p *parent) execute(jobs []Job, stall time.Duration) {
 					p.restarts++
 					job.Resume = out.Stopped
 					job.Stops++
-					if job.Stops >= 3 {
+					p.stops++
+					if job.Stops >= 3 || p.stops > 40 {
 						// every hang costs the hang detector's 10 s: a job that keeps hanging is abandoned
 						p.run.Cap(fmt.Sprintf("job abandoned after %d hangs/leaks (%d cases, first %s)", job.Stops, len(job.Cases), job.Cases[0].key()))
 						continue
 					}
-					next = append(next, job)
+					if job.Pairs || out.Stopped[0] < len(job.Cases)-1 {
+						next = append(next, job)
+					}
 				}
 			}
 		}
@@ -428,24 +432,27 @@ func main() {
 			controls = append(controls, Case{Flow: f.Name, Creds: creds})
 		}
 	}
+	controlViolates := false
 	for attempt := 1; ; attempt++ {
 		p.controls = map[string]*ExecResult{}
 		p.cands = nil
 		p.execute(chunk(controls, 4, false, nil), 3*time.Minute)
+		if len(p.cands) > 0 {
+			// a crash, hang or leak without any deviation is a violation, not a question of fidelity
+			controlViolates = true
+			break
+		}
 		bad := ""
 		for _, c := range controls {
 			r := p.controls[c.key()]
 			if r == nil {
-				bad = c.key() + ": no result (worker died: " + fmt.Sprint(p.cands) + ")"
+				bad = c.key() + ": no result"
 				break
 			}
 			for _, s := range r.Steps {
 				if !s.OK && !strings.HasPrefix(s.Name, "post-close/") {
 					bad = fmt.Sprintf("%s: step %s failed: %s (conversation %v)", c.key(), s.Name, s.Err, r.Seq)
 				}
-			}
-			if len(r.Viol) > 0 {
-				bad = fmt.Sprintf("%s: %v", c.key(), r.Viol)
 			}
 		}
 		if len(p.harness) > 0 {
@@ -460,43 +467,46 @@ func main() {
 		p.harness = nil
 	}
 	fmt.Printf("controls done at %.1fs\n", run.Elapsed().Seconds())
-	ctl := map[string][]string{}
-	for k, r := range p.controls {
-		ctl[k] = r.Seq
-	}
-	run.Set("control_conversations", ctl)
-
-	// ---- singles (and, in the thorough tier, pairs grown from each single)
-	var singles []Case
-	for _, c := range controls {
-		f := flowByName(c.Flow)
-		for pos, label := range p.controls[c.key()].Seq {
-			for _, dd := range devsFor(label, f, false) {
-				singles = append(singles, Case{Flow: c.Flow, Creds: c.Creds, Devs: []Dev{{dd.name, pos}}})
-			}
-		}
-	}
-	run.Set("single_deviation_cases", len(singles))
-	run.Set("deviation_menu", len(devMenu))
-	if run.Thorough() {
-		// interleave flows so that every job has a similar mix
-		sort.SliceStable(singles, func(i, j int) bool { return singles[i].Devs[0].Name < singles[j].Devs[0].Name })
-		// a flow that extends another flow shares its prefix: pairs lying entirely inside the shared prefix run in the base flow
-		minK2 := func(c Case) int {
-			f := flowByName(c.Flow)
-			if f.Base == "" {
-				return 0
-			}
-			return len(p.controls[Case{Flow: f.Base, Creds: c.Creds}.key()].Seq)
-		}
-		p.execute(chunk(singles, 12, true, minK2), 20*time.Minute)
+	if controlViolates {
+		run.Cap("a control run (no deviation) violates the oracle: deviations were not enumerated")
 	} else {
-		p.execute(chunk(singles, 60, false, nil), 5*time.Minute)
-	}
-	if len(p.harness) > 0 {
-		run.Fatal("harness errors: %v", p.harness[:min(5, len(p.harness))])
-	}
+		ctl := map[string][]string{}
+		for k, r := range p.controls {
+			ctl[k] = r.Seq
+		}
+		run.Set("control_conversations", ctl)
 
+		// ---- singles (and, in the thorough tier, pairs grown from each single)
+		var singles []Case
+		for _, c := range controls {
+			f := flowByName(c.Flow)
+			for pos, label := range p.controls[c.key()].Seq {
+				for _, dd := range devsFor(label, f, false) {
+					singles = append(singles, Case{Flow: c.Flow, Creds: c.Creds, Devs: []Dev{{dd.name, pos}}})
+				}
+			}
+		}
+		run.Set("single_deviation_cases", len(singles))
+		run.Set("deviation_menu", len(devMenu))
+		if run.Thorough() {
+			// interleave flows so that every job has a similar mix
+			sort.SliceStable(singles, func(i, j int) bool { return singles[i].Devs[0].Name < singles[j].Devs[0].Name })
+			// a flow that extends another flow shares its prefix: pairs lying entirely inside the shared prefix run in the base flow
+			minK2 := func(c Case) int {
+				f := flowByName(c.Flow)
+				if f.Base == "" {
+					return 0
+				}
+				return len(p.controls[Case{Flow: f.Base, Creds: c.Creds}.key()].Seq)
+			}
+			p.execute(chunk(singles, 12, true, minK2), 20*time.Minute)
+		} else {
+			p.execute(chunk(singles, 60, false, nil), 5*time.Minute)
+		}
+		if len(p.harness) > 0 {
+			run.Fatal("harness errors: %v", p.harness[:min(5, len(p.harness))])
+		}
+	}
 	fmt.Printf("enumeration done at %.1fs (%d executions, %d worker restarts)\n", run.Elapsed().Seconds(), run.Evals(), p.restarts)
 
 	// ---- violations: attribute, confirm, report
@@ -533,6 +543,8 @@ func main() {
 	all := p.cands
 	// deterministic? the smallest case of every new signature runs twice more, each time in a fresh worker
 	firstOf := map[string]candidate{}
+	skipped := map[string]bool{}
+	const maxConfirm = 48
 	var confirmJobs []Job
 	for _, sig := range order {
 		g := groups[sig]
@@ -543,6 +555,10 @@ func main() {
 			}
 		}
 		firstOf[sig] = first
+		if !run.IsKnown(sig) && len(confirmJobs) >= 2*maxConfirm {
+			skipped[sig] = true
+			continue
+		}
 		if !run.IsKnown(sig) {
 			confirmJobs = append(confirmJobs, Job{Cases: []Case{first.Case}}, Job{Cases: []Case{first.Case}})
 		}
@@ -555,8 +571,14 @@ func main() {
 	for _, c := range p.cands {
 		again[c.Case.key()+"|"+c.Kind+"|"+c.Step]++
 	}
+	if len(skipped) > 0 {
+		run.Cap(fmt.Sprintf("%d further violation signatures were not re-run for confirmation and are not reported (only the first %d are)", len(skipped), maxConfirm))
+	}
 	for _, sig := range order {
 		g, first := groups[sig], firstOf[sig]
+		if skipped[sig] {
+			continue
+		}
 		if !run.IsKnown(sig) {
 			if n := again[first.Case.key()+"|"+first.Kind+"|"+first.Step]; n < 2 {
 				run.Flaky(fmt.Sprintf("%s reproduced %d of 2 times: %s", sig, n, first.Case.key()))
